@@ -1,9 +1,13 @@
 package c08
 
 import (
+	"context"
 	"errors"
 	"fmt"
+	"github.com/thushan/olla/internal/core/domain"
+	"io"
 	"math/rand"
+	"net/http"
 	"runtime"
 	"strings"
 	"sync"
@@ -86,6 +90,53 @@ func (b *unifierB) Ask() bool             { return b.cb.Allow() }
 func (b *unifierB) Fail()                 { b.cb.RecordFailure() }
 func (b *unifierB) Succ()                 { b.cb.RecordSuccess() }
 func (b *unifierB) Shift(d time.Duration) { b.cb.VerifShift(d) }
+
+// clientB drives the health breaker the way the health checker does: through HealthClient.Check,
+// which asks the breaker, probes (an in-memory HTTP client that answers 200 or 500 at once) and
+// feeds the outcome back.  Failure / success operations are therefore gated: they only happen
+// if the breaker admits the check, and whether it did is compared with the reference too.
+type fakeHTTP struct {
+	status int
+	hits   int
+}
+
+func (f *fakeHTTP) Do(req *http.Request) (*http.Response, error) {
+	f.hits++
+	return &http.Response{StatusCode: f.status, Body: io.NopCloser(strings.NewReader("{}")), Header: http.Header{}, Request: req}, nil
+}
+
+type clientB struct {
+	cb   *health.CircuitBreaker
+	hc   *health.HealthClient
+	http *fakeHTTP
+	ep   *domain.Endpoint
+}
+
+func newClientB() *clientB {
+	f := &fakeHTTP{status: 200}
+	cb := health.NewCircuitBreaker()
+	return &clientB{cb: cb, hc: health.NewHealthClient(f, cb), http: f,
+		ep: &domain.Endpoint{Name: "hc", HealthCheckURLString: hURL, CheckTimeout: 5 * time.Second}}
+}
+
+func (b *clientB) check(status int) bool {
+	b.http.status = status
+	h0 := b.http.hits
+	_, _ = b.hc.Check(context.Background(), b.ep)
+	return b.http.hits > h0
+}
+func (b *clientB) Ask() bool             { return !b.cb.IsOpen(hURL) }
+func (b *clientB) Fail()                 { b.cb.RecordFailure(hURL) }
+func (b *clientB) Succ()                 { b.cb.RecordSuccess(hURL) }
+func (b *clientB) Shift(d time.Duration) { b.cb.VerifShift(d) }
+func (b *clientB) CheckFail() bool       { return b.check(500) }
+func (b *clientB) CheckOK() bool         { return b.check(200) }
+
+// gated breakers perform failure / success only through an admission of their own.
+type gated interface {
+	CheckFail() bool
+	CheckOK() bool
+}
 
 // managerB drives the unification breaker the way LifecycleUnifier.UnifyModels does: through
 // the EndpointManager that owns the per-endpoint breakers.
@@ -361,6 +412,39 @@ func runSeq(sp *spec, seq []op) result {
 	lt, gt, win := deltas(sp)
 	outstanding := 0
 	apply := func(i int, o op) *result {
+		if _, isGated := b.(gated); isGated && o == opAsk {
+			// a gated breaker is only ever asked as part of a check (below); a separate ask would
+			// use up the admission the check itself needs
+			return nil
+		}
+		if g, isGated := b.(gated); isGated && (o == opFail || o == opSucc) {
+			var got bool
+			if o == opFail {
+				got = g.CheckFail()
+			} else {
+				got = g.CheckOK()
+			}
+			ok, allowed := m.ask(got)
+			if m.edge {
+				return &result{edge: true}
+			}
+			if !ok {
+				kind := "admitted-while-it-must-deny"
+				if !got {
+					kind = "denied-while-it-must-admit"
+				}
+				return &result{violKey: fmt.Sprintf("C08/%s/%s", sp.name, kind), step: i,
+					violWhat: fmt.Sprintf("step %d: a health check was admitted=%v by the breaker, reference allows %v", i, got, allowed)}
+			}
+			if got {
+				if o == opFail {
+					m.fail()
+				} else {
+					m.succeed()
+				}
+			}
+			return nil
+		}
 		switch o {
 		case opFail:
 			b.Fail()
@@ -450,6 +534,8 @@ func specs() []*spec {
 	var out []*spec
 	out = append(out, &spec{kind: kHealth, name: "health", FT: 3, ST: 1, timeout: 30, window: 1,
 		mk: func() breaker { return &healthB{health.NewCircuitBreaker()} }})
+	out = append(out, &spec{kind: kHealth, name: "health-via-client", FT: 3, ST: 1, timeout: 30, window: 1,
+		mk: func() breaker { return newClientB() }})
 	out = append(out, &spec{kind: kEngine, name: "engine", FT: 5, ST: 1, timeout: 30,
 		mk: func() breaker { return &engineB{olla.VerifNewBreaker()} }})
 	for _, c := range [][3]int{{5, 2, 3}, {1, 1, 1}, {2, 2, 2}, {3, 1, 2}, {2, 3, 4}} {
@@ -486,6 +572,9 @@ func TestC08(t *testing.T) {
 		l := L
 		if sp.kind == kUnifier && sp.FT != 5 {
 			l = L - 1 // the small-threshold configs reach every state earlier
+		}
+		if sp.name == "health-via-client" {
+			l = L - 2 // every operation is a whole HealthClient.Check (request, context, timer): ~100x the cost of a bare breaker call
 		}
 		// parallel DFS over prefixes of length 2
 		var prefixes [][]op
